@@ -41,21 +41,46 @@ type Case struct {
 	RetransMs  int   `json:"retrans_ms"`
 	MaxRetrans uint8 `json:"max_retrans"`
 	Evs        []Ev  `json:"evs"`
+	// Many > 0: after the events, so many further requests (Modification Requests for an unknown session, sequence numbers 1000, 1001, ...) arrive in one burst;
+	// BusyMs > 0: the event loop is then busy inside a data-plane call until BusyMs after their windows have ended, so that
+	// all their retention timers fire while nobody serves them (the loop's timer queue holds 64 expiries)
+	Many   int `json:"many,omitempty"`
+	BusyMs int `json:"busy_ms,omitempty"`
 }
 
 type Stats struct {
 	Unanswered int
 	Keys       int
+	Busy       bool // the loop was busy while the retention timers of a burst fired
 }
 
 // Run plays the case on a fresh server.
 func Run(c Case) (v *vcore.Violation, stt Stats) {
 	d := stack.NewModelDriver()
+	gate := make(chan struct{})
+	entered := make(chan struct{}, 1)
+	d.Hook = func(op, kind string, seid uint64, id uint32) {
+		if op == "create" && kind == "FAR" && id == 7777 {
+			select {
+			case entered <- struct{}{}:
+			default:
+			}
+			<-gate
+		}
+	}
+	released := false
+	release := func() {
+		if !released {
+			released = true
+			close(gate)
+		}
+	}
 	st, err := stack.New(stack.Opts{Driver: d, Nodes: 2, Extra: 1, Retrans: time.Duration(c.RetransMs) * time.Millisecond, MaxRetrans: c.MaxRetrans})
 	if err != nil {
 		panic(fmt.Sprintf("infrastructure: %v", err))
 	}
 	defer func() {
+		release()
 		if cerr := st.Close(); cerr != nil && v == nil {
 			v = vcore.Violatef("stop-hang", "%v", cerr)
 		}
@@ -70,6 +95,7 @@ func Run(c Case) (v *vcore.Violation, stt Stats) {
 		seq  uint32
 	}
 	used := map[k]bool{}
+	hbKey := map[k]bool{} // keys under which a Heartbeat Request was sent: probed with another type of request afterwards
 	var order []k
 	cp := uint64(0x500)
 	ts := ie.NewRecoveryTimeStamp(time.Unix(1700000000, 0))
@@ -115,12 +141,66 @@ func Run(c Case) (v *vcore.Violation, stt Stats) {
 			used[kk] = true
 			order = append(order, kk)
 		}
+		if ev.Kind == "hb" {
+			hbKey[kk] = true
+		}
+	}
+	if c.Many > 0 {
+		for i := 0; i < c.Many; i++ {
+			kk := k{0, uint32(1000 + i)}
+			// Modification Requests for a session that does not exist: answered (cause 'session context not found'), so a
+			// transaction that is never released gives itself away by re-sending that answer to the heartbeat sent later
+			if err := st.Send(0, stack.Marshal(message.NewSessionModificationRequest(0, 0, 0xfff0, kk.seq, 0))); err != nil {
+				panic(err)
+			}
+			if !used[kk] {
+				used[kk] = true
+				order = append(order, kk)
+			}
+			if i%64 == 63 {
+				time.Sleep(time.Millisecond)
+			}
+		}
+		if c.BusyMs > 0 {
+			// an Establishment whose first data-plane call does not return before every window of the burst has ended
+			b, err := r.Build(stack.Op{Kind: "est", Peer: 0, Node: 0, Sess: -1, CP: 0x7777, Rules: []stack.RuleOp{{Verb: "create", Kind: "FAR", ID: 7777, Action: 2, HasAction: true}}}, 0x777777)
+			if err != nil {
+				panic(err)
+			}
+			if err := st.Send(0, b); err != nil {
+				panic(err)
+			}
+			select {
+			case <-entered:
+				stt.Busy = true
+				time.Sleep(window + time.Duration(c.BusyMs)*time.Millisecond)
+			case <-time.After(3 * time.Second):
+				// node 0 is not associated in this history: no busy loop then
+			}
+			release()
+		}
+		if err := st.Barrier(); err != nil {
+			if e, ok := err.(*stack.ErrDead); ok {
+				return vcore.Violatef(e.Info.Key, "burst: UPF fatal exit"), stt
+			}
+			return vcore.Violatef("stuck", "burst of %d heartbeats: %v", c.Many, err), stt
+		}
+		for _, sock := range st.AllSocks() {
+			st.Sock(sock).Drain()
+		}
 	}
 	stt.Keys = len(order)
 	// more than the window after the last request
 	time.Sleep(2*window + 30*time.Millisecond)
 	for _, kk := range order {
 		hb := stack.Marshal(message.NewHeartbeatRequest(kk.seq, ts, nil))
+		wantType := message.MsgTypeHeartbeatResponse
+		if hbKey[kk] {
+			// a transaction that was never released would re-send its Heartbeat Response, which looks like the answer to a new
+			// heartbeat: ask something else under this key
+			hb = stack.Marshal(message.NewSessionModificationRequest(0, 0, 0xfff0, kk.seq, 0))
+			wantType = message.MsgTypeSessionModificationResponse
+		}
 		deadline := time.Now().Add(10 * time.Second)
 		answered := false
 		tries := 0
@@ -134,7 +214,7 @@ func Run(c Case) (v *vcore.Violation, stt Stats) {
 				return vcore.Violatef("stuck", "heartbeat after the window: the UPF stopped answering"), stt
 			}
 			for _, m := range o.Msgs[kk.peer] {
-				if m.MessageType() == message.MsgTypeHeartbeatResponse && m.Sequence() == kk.seq {
+				if m.MessageType() == wantType && m.Sequence() == kk.seq {
 					answered = true
 				}
 			}
@@ -143,7 +223,7 @@ func Run(c Case) (v *vcore.Violation, stt Stats) {
 			}
 		}
 		if !answered {
-			return vcore.Violatef("window-never-elapses", "retention window %v: %d heartbeats with (address %s, sequence %d) over 10 s, sent %v and more after the last earlier request with that key, were all taken for retransmissions (none executed)",
+			return vcore.Violatef("window-never-elapses", "retention window %v: %d requests with (address %s, sequence %d) over 10 s, sent %v and more after the last earlier request with that key, were all taken for retransmissions (none executed)",
 				window, tries, st.Sock(kk.peer).Addr, kk.seq, 2*window+30*time.Millisecond), stt
 		}
 	}
@@ -165,6 +245,10 @@ func Gen(t *rapid.T) Case {
 			Peer: rapid.SampledFrom([]int{0, 1, 100}).Draw(t, "peer"),
 			Seq:  rapid.SampledFrom([]uint32{1, 2, 3, 0, 1<<24 - 1}).Draw(t, "seq"),
 		})
+	}
+	if rapid.IntRange(0, 5).Draw(t, "burst") == 0 {
+		c.Many = rapid.SampledFrom([]int{30, 64, 65, 100, 200}).Draw(t, "many")
+		c.BusyMs = rapid.SampledFrom([]int{0, 30, 150, 300}).Draw(t, "busy_ms")
 	}
 	return c
 }
